@@ -15,13 +15,11 @@ symbolic reasoning about the spaces in which finite elements lie.
 # Modified by Lizao Li 2015
 # Modified by Thomas Gibson 2017
 
-from functools import total_ordering
 from math import inf, isinf
 
 __all_classes__ = ["SobolevSpace", "DirectionalSobolevSpace"]
 
 
-@total_ordering
 class SobolevSpace:
     """Symbolic representation of a Sobolev space.
 
@@ -89,10 +87,31 @@ class SobolevSpace:
 
     def __lt__(self, other):
         """In common with intrinsic Python sets, < indicates "is a proper subset of"."""
+        if isinstance(other, DirectionalSobolevSpace):
+            # A subspace of a directional space is a subspace in every direction
+            return self != other and all(self <= other[i] for i in other._spatial_indices)
         return other in self.parents
 
+    # Inclusion is only a partial order (e.g. HDiv and HCurl are not
+    # comparable), so the remaining comparisons are defined explicitly
+    # from < and == instead of using functools.total_ordering.
 
-@total_ordering
+    # NB! __lt__ is called explicitly below because Python tries the
+    # reflected operator of a subclass instance first.
+
+    def __le__(self, other):
+        """Subset or equal."""
+        return self == other or self.__lt__(other)
+
+    def __gt__(self, other):
+        """Proper superset."""
+        return other.__lt__(self)
+
+    def __ge__(self, other):
+        """Superset or equal."""
+        return self == other or other.__lt__(self)
+
+
 class DirectionalSobolevSpace(SobolevSpace):
     """Directional Sobolev space.
 
@@ -150,15 +169,19 @@ class DirectionalSobolevSpace(SobolevSpace):
         if isinstance(other, DirectionalSobolevSpace):
             if self._spatial_indices != other._spatial_indices:
                 return False
-            return any(self._orders[i] > other._orders[i] for i in self._spatial_indices)
+            return all(
+                self._orders[i] >= other._orders[i] for i in self._spatial_indices
+            ) and any(self._orders[i] > other._orders[i] for i in self._spatial_indices)
 
         if other in [HDiv, HCurl]:
             return all(self._orders[i] >= 1 for i in self._spatial_indices)
         elif other.name in ["HDivDiv", "HEin", "HCurlDiv"]:
             # Don't know how these spaces compare
-            return NotImplementedError(f"Don't know how to compare with {other.name}")
+            raise NotImplementedError(f"Don't know how to compare with {other.name}")
         else:
-            return any(self._orders[i] > other._order for i in self._spatial_indices)
+            return all(self._orders[i] >= other._order for i in self._spatial_indices) and any(
+                self._orders[i] > other._order for i in self._spatial_indices
+            )
 
     def __str__(self):
         """Format as a string."""
